@@ -1,0 +1,23 @@
+//go:build verif
+
+package cmd
+
+import (
+	"github.com/spf13/cobra"
+
+	"github.com/keep-network/keep-core/config"
+)
+
+// Verification hook (build tag verif): re-exports existing identifiers only.
+
+// VerifC44InitFlags registers the global (config path, network selection) and
+// the per-category flags on the command exactly as the client commands do.
+func VerifC44InitFlags(
+	cmd *cobra.Command,
+	configFilePath *string,
+	cfg *config.Config,
+	categories ...config.Category,
+) {
+	initGlobalFlags(cmd, configFilePath)
+	initFlags(cmd, configFilePath, cfg, categories...)
+}
